@@ -27,6 +27,7 @@ OTHERS = {
     "f-uri": "r.u", "cons": "net.ipnetwork('10.0.0.0/8')", "cons-legacy-subnet": "net.ipv4.Subnet('10.0.0.0/8')", "cons-legacy-addr": "net.ipv4.Address('10.1.2.3')",
     "cons-ip": "net.ipaddress('10.1.2.3')", "cons-ip6net": "net.ipnetwork('::/0')", "type": "Type.string", "f-none": "r.none", "f-bytes": "r.raw", "str-empty": "''",
 }
+NONCONTAINER = {"int", "float", "none", "bool", "f-int", "f-float", "f-bool", "f-path", "f-ip", "f-none", "cons-ip", "cons-legacy-addr"}
 CONTEXTS = {
     "bare": "%s", "and-r": "(%s) and True", "and-l": "True and (%s)", "or-r": "(%s) or False", "or-l": "False or (%s)", "not": "not (%s)",
     "not-and": "not (%s) and True", "any": "any((%s) for _i in [1])", "chain-after-true": "%s", "chain-before-true": "%s",
@@ -64,6 +65,14 @@ def other_class(k):
         return "strlike"
     if k in ("list", "tuple", "emptylist", "f-list"):
         return "seq"
+    if k == "type":
+        return "typed"
+    if k.startswith("cons-legacy"):
+        return "legacy-" + k[12:]
+    if k.startswith("cons"):
+        return "cons"
+    if k in ("f-ip", "f-path"):
+        return k
     return "other"
 
 
@@ -86,7 +95,7 @@ def run_expr(case):
     elif ctx == "chain3":  # the missing field is the 4th (or 1st) operand of a chain whose other links hold
         cmp_ = {"left": "r.zz %s %s == %s == %s" % (op, o, o, o), "right": "%s == %s == %s %s r.zz" % (o, o, o, op), "both": "r.zz %s r.zq == r.zq == r.zq" % op}[pos]
     elif ctx == "chain4":
-        cmp_ = {"left": "r.zz %s 0 <= 1 <= r.n <= 3" % op, "right": "0 <= r.n <= 2 <= 3 %s r.zz" % op, "both": "0 <= r.n <= 2 %s r.zz %s r.zq" % (op, op)}[pos]
+        cmp_ = {"left": ("r.zz %s 0 <= 1 <= r.n <= 3" % op) if op not in ("in", "not in") else ("r.zz %s [0] <= [1] <= [r.n] <= [3]" % op), "right": "0 <= r.n <= 2 <= 3 %s r.zz" % op, "both": "0 <= r.n <= 2 %s r.zz %s r.zq" % (op, op)}[pos]
     elif ctx == "chain-before-true":
         cmp_ = {"left": "r.zz %s %s == %s" % (op, o, o), "right": "r.n == r.n and %s %s r.zz" % (o, op), "both": "r.zz %s r.zq" % op}[pos]
     expr = CONTEXTS[ctx] % cmp_
@@ -105,6 +114,9 @@ def run_expr(case):
     except Exception as e:  # noqa: BLE001
         res = "E:" + type(e).__name__
         engine = "compiled" if "ompiled" in how or how.endswith("forced") else "interpreted"
+        if op in ("in", "not in") and pos == "left" and ok in NONCONTAINER and isinstance(e, TypeError):
+            # `x in <something that is no container>` is a TypeError for every x, with or without the field
+            return {"ev": 1, "h": h, "nt": True, "out": "%s:E-noncontainer" % ctx, "viol": []}
         viol.append(("C08:%s:op=%s:missing=%s:other=%s:raises-%s" % (engine, op, pos, other_class(ok), type(e).__name__), case,
                      {"expr": expr, "error": repr(e)[:200]}))
     return {"ev": 1, "h": h, "nt": True, "out": "%s:%s" % (ctx, res), "viol": viol, "sample": case if int(h, 16) % 3001 == 0 else None}
